@@ -46,6 +46,23 @@ theorem signLen_eq_zero_iff (t : IntTy) (s : List Nat) :
     have : signLen t s ≠ 1 := fun hc => h (h1.1 hc)
     omega
 
+/-- explicit reading of the exclusion -/
+theorem signLen_lt_iff (t : IntTy) (s : List Nat) (n : Nat) (hn : 0 < n) :
+    signLen t s < n ↔ (2 ≤ n ∨ ¬ (s.head? = some 43 ∨ (s.head? = some 45 ∧ t.signed = true))) := by
+  have h0 := signLen_eq_zero_iff t s
+  have h1 := signLen_le_one t s
+  constructor
+  · intro h
+    by_cases h2 : 2 ≤ n
+    · exact .inl h2
+    · exact .inr (h0.1 (by omega))
+  · rintro (h | h)
+    · omega
+    · have := h0.2 h; omega
+
+theorem take_bytes (s : List Nat) (hs : ∀ b ∈ s, b < 256) (n : Nat) : ∀ b ∈ s.take n, b < 256 :=
+  fun b hb => hs b (List.mem_of_mem_take hb)
+
 /-- `Spec.parseInt` with the sign match written as functions of the input -/
 theorem parseInt_eq (t : IntTy) (r : Nat) (p : Bool) (s : List Nat) :
     parseInt t r p s =
